@@ -1048,8 +1048,20 @@ type StreamResult = Vec<((u8, u32, u32), Vec<u8>)>;
 /// expected result of every box is the stream run alone
 struct RoundTarget {
 	path: PathBuf,
+	/// `Some((v|p, bytes))`: the reader is opened on an in-memory copy (`DataReaderBlob`) instead of the file
+	blob: Option<(char, Arc<Vec<u8>>)>,
 	probes: Vec<(TileCoord3, String)>,
 	boxes: Vec<(TileBBox, StreamResult)>,
+}
+
+async fn open_round_reader(path: &Path, blob: &Option<(char, Arc<Vec<u8>>)>) -> anyhow::Result<Box<dyn TilesReaderTrait>> {
+	use versatiles_container::{PMTilesReader, VersaTilesReader};
+	use versatiles_core::io::DataReaderBlob;
+	match blob {
+		None => get_reader(path.to_str().unwrap()).await,
+		Some(('v', b)) => Ok(Box::new(VersaTilesReader::open_reader(Box::new(DataReaderBlob::from(b.as_ref().clone()))).await?)),
+		Some((_, b)) => Ok(Box::new(PMTilesReader::open_reader(Box::new(DataReaderBlob::from(b.as_ref().clone()))).await?)),
+	}
 }
 
 fn verdict_of(r: Result<anyhow::Result<Option<Blob>>, String>) -> String {
@@ -1143,7 +1155,7 @@ fn round_targets(args: &Args, out: &mut Out, targets: &[&str]) -> HashMap<String
 		}
 		out.extra.insert("versatiles-blocks_setup".into(), json!({"tiles": coords.len(), "boxes": boxes.len(), "tiles_per_box": boxes.iter().map(|b| b.1.len()).collect::<Vec<_>>()}));
 		out.oracle(boxes[0].1.len() >= 96, "C13 blocks-setup: the multi-block stream does not deliver the stored tiles when run alone", json!({"kind": "blocks-setup"}), json!({"delivered": boxes[0].1.len()}));
-		m.insert("versatiles-blocks".to_string(), RoundTarget { path: path.clone(), probes: fresh_verdicts(&path, true), boxes });
+		m.insert("versatiles-blocks".to_string(), RoundTarget { path: path.clone(), blob: None, probes: fresh_verdicts(&path, true), boxes });
 	}
 	if targets.contains(&"versatiles-damaged") {
 		let bytes = std::fs::read(&path).unwrap_or_default();
@@ -1156,9 +1168,89 @@ fn round_targets(args: &Args, out: &mut Out, targets: &[&str]) -> HashMap<String
 				let n_err = probes.iter().filter(|p| p.1 == "err").count();
 				out.extra.insert("versatiles-damaged_setup".into(), json!({"probes": probes.len(), "probes_answered_err_by_a_fresh_reader": n_err}));
 				out.oracle(n_err > 0, "C13 damaged-setup: no probe of the damaged container fails on a fresh reader", json!({"kind": "damaged-setup"}), json!({}));
-				m.insert("versatiles-damaged".to_string(), RoundTarget { path: dpath, probes, boxes: vec![] });
+				m.insert("versatiles-damaged".to_string(), RoundTarget { path: dpath, blob: None, probes, boxes: vec![] });
 			}
 			None => out.notes.push("versatiles-damaged: could not damage a tile index of the stress container".into()),
+		}
+	}
+	m
+}
+
+/// tiny containers of every format (and in-memory copies for the blob-backed readers): in every round the
+/// callers' FIRST operations on a freshly opened reader are released together by a barrier
+fn first_targets(args: &Args, out: &mut Out, targets: &[&str]) -> HashMap<String, RoundTarget> {
+	let mut m = HashMap::new();
+	if !targets.iter().any(|t| t.starts_with("first-")) {
+		return m;
+	}
+	let rt = tokio::runtime::Builder::new_current_thread().enable_all().build().unwrap();
+	let mut tiles = vec![];
+	for z in 0..=3u8 {
+		for x in 0..(1u32 << z) {
+			for y in 0..(1u32 << z) {
+				let c = TileCoord3::new(x, y, z).unwrap();
+				let mut b = tile_bytes(&c);
+				b.truncate(18);
+				tiles.push((c, Blob::from(b)));
+			}
+		}
+	}
+	for i in 0..24u32 {
+		let c = TileCoord3::new(250 + i % 12, 254 + i / 12, 9).unwrap();
+		let mut b = tile_bytes(&c);
+		b.truncate(22);
+		tiles.push((c, Blob::from(b)));
+	}
+	let boxes_def = [(3u8, 0u32, 0u32, 7u32, 7u32), (9, 248, 250, 262, 258)];
+	for kind in ["versatiles", "pmtiles", "tar", "mbtiles", "dir"] {
+		let path = if kind == "dir" { args.out.join("c13_first_dir") } else { args.out.join(format!("c13_first.{kind}")) };
+		if kind == "dir" {
+			let _ = std::fs::remove_dir_all(&path);
+			std::fs::create_dir_all(&path).unwrap();
+		} else {
+			let _ = std::fs::remove_file(&path);
+		}
+		let mut src = MemSource::new("c13-first", TileFormat::PNG, TileCompression::Uncompressed, tiles.clone());
+		let coords = src.coords();
+		if let Err(e) = rt.block_on(async { write_to_filename(&mut src, path.to_str().unwrap()).await }) {
+			out.notes.push(format!("first-{kind}: could not write the container: {e}"));
+			continue;
+		}
+		let mut variants: Vec<(String, Option<(char, Arc<Vec<u8>>)>)> = vec![(format!("first-{kind}"), None)];
+		if kind == "versatiles" || kind == "pmtiles" {
+			let bytes = Arc::new(std::fs::read(&path).unwrap_or_default());
+			variants.push((format!("first-{kind}-blob"), Some((kind.chars().next().unwrap(), bytes))));
+		}
+		for (name, blob) in variants {
+			if !targets.contains(&name.as_str()) {
+				continue;
+			}
+			let mut probes_c = coords.clone();
+			for i in 0..30u32 {
+				probes_c.push(TileCoord3::new((i * 7) % 32, (i * 11) % 32, 5).unwrap());
+			}
+			let r = rt.block_on(async {
+				let reader = open_round_reader(&path, &blob).await?;
+				let mut probes = vec![];
+				for c in &probes_c {
+					probes.push((*c, verdict_of(Ok(reader.get_tile_data(c).await))));
+				}
+				let mut boxes = vec![];
+				for (z, x0, y0, x1, y1) in boxes_def {
+					let b = TileBBox::new(z, x0, y0, x1, y1).unwrap();
+					let fresh = open_round_reader(&path, &blob).await?;
+					boxes.push((b.clone(), collect_stream(fresh.as_ref(), &b).await));
+				}
+				anyhow::Ok((probes, boxes))
+			});
+			match r {
+				Ok((probes, boxes)) => {
+					let present = probes.iter().filter(|p| p.1.starts_with("some")).count();
+					out.oracle(present == coords.len() && boxes[0].1.len() == 64, "C13 first-setup: the tiny container does not read back on a fresh reader", json!({"kind": "first-setup", "target": name}), json!({"present": present, "stream": boxes[0].1.len()}));
+					m.insert(name, RoundTarget { path: path.clone(), blob, probes, boxes });
+				}
+				Err(e) => out.notes.push(format!("{name}: could not open the container: {e}")),
+			}
 		}
 	}
 	m
@@ -1170,24 +1262,31 @@ fn round_targets(args: &Args, out: &mut Out, targets: &[&str]) -> HashMap<String
 fn stress_rounds(cfg: &StressCfg, target: &RoundTarget) -> (u64, Vec<Fail>, Vec<(u64, u64)>) {
 	let target_probes = Arc::new(target.probes.clone());
 	let target_boxes = Arc::new(target.boxes.clone());
-	const PER_ROUND: usize = 6;
-	let rounds = (cfg.calls / PER_ROUND).max(1);
+	// mode `first`: the callers' very first operations on the fresh reader, released together
+	let first = cfg.mode == "first";
+	let per_round: usize = if first { 1 } else { 6 };
+	let rounds = if first { cfg.calls.max(1) } else { (cfg.calls / per_round).max(1) };
 	let mut total = 0u64;
 	let mut fails: Vec<Fail> = vec![];
 	let mut sample = vec![];
 	let rt_multi = if cfg.exec == "tokio" { Some(tokio::runtime::Builder::new_multi_thread().worker_threads(16).enable_all().build().unwrap()) } else { None };
 	let opener = tokio::runtime::Builder::new_current_thread().enable_all().build().unwrap();
 	for round in 0..rounds {
-		let Ok(reader) = opener.block_on(get_reader(target.path.to_str().unwrap())) else {
+		let Ok(reader) = opener.block_on(open_round_reader(&target.path, &target.blob)) else {
 			fails.push(Fail { kind: "error", detail: json!({"open": "failed"}) });
 			break;
 		};
 		let reader: Arc<Box<dyn TilesReaderTrait>> = Arc::new(reader);
-		let work = |t: usize, reader: Arc<Box<dyn TilesReaderTrait>>, probes: Arc<Vec<(TileCoord3, String)>>, boxes: Arc<Vec<(TileBBox, StreamResult)>>, seed: u64| async move {
+		let tbarrier = Arc::new(tokio::sync::Barrier::new(cfg.threads));
+		let use_tbarrier = rt_multi.is_some();
+		let work = move |t: usize, reader: Arc<Box<dyn TilesReaderTrait>>, probes: Arc<Vec<(TileCoord3, String)>>, boxes: Arc<Vec<(TileBBox, StreamResult)>>, seed: u64, tb: Arc<tokio::sync::Barrier>| async move {
 			let mut rng = Rng::new(seed);
 			let mut fails = vec![];
 			let mut n = 0u64;
-			for _ in 0..PER_ROUND {
+			if use_tbarrier {
+				tb.wait().await;
+			}
+			for _ in 0..per_round {
 				if !boxes.is_empty() && rng.chance(1, 2) {
 					let bi = rng.below(boxes.len() as u64) as usize;
 					let got = collect_stream(reader.as_ref().as_ref(), &boxes[bi].0).await;
@@ -1213,7 +1312,7 @@ fn stress_rounds(cfg: &StressCfg, target: &RoundTarget) -> (u64, Vec<Fail>, Vec<
 		let seed0 = cfg.seed.wrapping_mul(7919).wrapping_add(round as u64 * 131);
 		let results: Vec<(u64, Vec<Fail>)> = if let Some(rt) = &rt_multi {
 			rt.block_on(async {
-				let hs: Vec<_> = (0..cfg.threads).map(|t| tokio::spawn(work(t, reader.clone(), target_probes.clone(), target_boxes.clone(), seed0 + t as u64))).collect();
+				let hs: Vec<_> = (0..cfg.threads).map(|t| tokio::spawn(work(t, reader.clone(), target_probes.clone(), target_boxes.clone(), seed0 + t as u64, tbarrier.clone()))).collect();
 				let mut v = vec![];
 				for h in hs {
 					match h.await {
@@ -1227,10 +1326,10 @@ fn stress_rounds(cfg: &StressCfg, target: &RoundTarget) -> (u64, Vec<Fail>, Vec<
 			let barrier = Arc::new(std::sync::Barrier::new(cfg.threads));
 			let hs: Vec<_> = (0..cfg.threads)
 				.map(|t| {
-					let (reader, probes, boxes, barrier) = (reader.clone(), target_probes.clone(), target_boxes.clone(), barrier.clone());
+					let (reader, probes, boxes, barrier, tb) = (reader.clone(), target_probes.clone(), target_boxes.clone(), barrier.clone(), tbarrier.clone());
 					std::thread::spawn(move || {
 						barrier.wait();
-						futures::executor::block_on(work(t, reader, probes, boxes, seed0 + t as u64))
+						futures::executor::block_on(work(t, reader, probes, boxes, seed0 + t as u64, tb))
 					})
 				})
 				.collect();
@@ -1387,7 +1486,8 @@ fn stress_env(args: &Args, out: &mut Out, targets: &[&str]) -> StressEnv {
 			}
 		}
 	}
-	let rounds = round_targets(args, out, targets);
+	let mut rounds = round_targets(args, out, targets);
+	rounds.extend(first_targets(args, out, targets));
 	StressEnv { file_path, file_data, containers, rounds }
 }
 
@@ -1440,7 +1540,7 @@ pub fn run(args: &Args) {
 	}
 	quiet_panics();
 	let mut out = Out::new(&args.out);
-	out.rule = "(1) `C13 iso`: read_range calls of the real DataReaderFile traced with strace -ff from 4 threads (ranges inside the file, empty, and beyond EOF); the observed per-call syscall program is normalised and judged by the Lean model (isolated? equal to the modelled program? bytes it returns alone) – non-trivial = the call issues at least one syscall. (2) `C13 sched`: 1–4 random well-formed syscall programs (dup/open/lseek/read/pread/close on shared, aliased and own descriptors, plus the two read_range variants) and a random schedule, executed step by step with real syscalls and by the model – non-trivial = at least two non-empty programs whose steps alternate at least twice. (3) stress, oracle only: one reader shared by 2–16 OS threads / 16–64 tasks on a 16-worker tokio runtime, random byte ranges (disjoint regions per thread or overlapping; 0 B – 200 KB, plus a phase of reads of 1 MiB−1 / 1 MiB / 1 MiB+1 / 1–3 MiB, 64 OS threads, and a phase under RLIMIT_NOFILE lowered to the descriptors in use + 8; position-dependent file bytes) resp. random tile coordinates (present and absent) on versatiles/pmtiles/tar files written by the real writers, and on PMTiles files WITH leaf directories (16900 tiles through the real writer; independently encoded files with 2 and 3 directory levels) where each caller mostly stays in one leaf and different callers use leaves far apart; rounds on FRESHLY opened versatiles readers (cold tile-index cache) in which the callers mix bbox streams spanning 1–16 blocks with lookups (each stream must equal the stream run alone), and lookups on a container with a damaged tile index (each verdict bytes/none/err must equal the verdict of a fresh reader); every result is compared with the sequential result; distinct = by (target, executor, threads, request) over the first 200 requests of every thread".into();
+	out.rule = "(1) `C13 iso`: read_range calls of the real DataReaderFile traced with strace -ff from 4 threads (ranges inside the file, empty, and beyond EOF); the observed per-call syscall program is normalised and judged by the Lean model (isolated? equal to the modelled program? bytes it returns alone) – non-trivial = the call issues at least one syscall. (2) `C13 sched`: 1–4 random well-formed syscall programs (dup/open/lseek/read/pread/close on shared, aliased and own descriptors, plus the two read_range variants) and a random schedule, executed step by step with real syscalls and by the model – non-trivial = at least two non-empty programs whose steps alternate at least twice. (3) stress, oracle only: one reader shared by 2–16 OS threads / 16–64 tasks on a 16-worker tokio runtime, random byte ranges (disjoint regions per thread or overlapping; 0 B – 200 KB, plus a phase of reads of 1 MiB−1 / 1 MiB / 1 MiB+1 / 1–3 MiB, 64 OS threads, and a phase under RLIMIT_NOFILE lowered to the descriptors in use + 8; position-dependent file bytes) resp. random tile coordinates (present and absent) on versatiles/pmtiles/tar files written by the real writers, and on PMTiles files WITH leaf directories (16900 tiles through the real writer; independently encoded files with 2 and 3 directory levels) where each caller mostly stays in one leaf and different callers use leaves far apart; rounds on FRESHLY opened versatiles readers (cold tile-index cache) in which the callers mix bbox streams spanning 1–16 blocks with lookups (each stream must equal the stream run alone), and lookups on a container with a damaged tile index (each verdict bytes/none/err must equal the verdict of a fresh reader); tiny containers of every format (versatiles, pmtiles, tar, mbtiles, directory on disk; versatiles and pmtiles also blob-backed) on which 2/4/16/64 callers make their FIRST lookups / streams on a freshly opened reader at the same moment (barrier), many rounds; every result is compared with the sequential result; distinct = by (target, executor, threads, request) over the first 200 requests of every thread".into();
 	if let Some(p) = &args.replay {
 		let lines: Vec<String> = std::fs::read_to_string(p).unwrap().lines().map(|s| s.to_string()).collect();
 		let targets: Vec<&str> = lines.iter().filter(|l| l.starts_with("C13 stress ")).filter_map(|l| l.split(' ').nth(2)).collect();
@@ -1473,7 +1573,7 @@ pub fn run(args: &Args) {
 	phases.push(("strace".into(), t0.elapsed().as_secs_f64()));
 	kernel_model_cases(args, &mut out, &mut rng);
 	phases.push(("kernel-model".into(), t0.elapsed().as_secs_f64()));
-	let env = stress_env(args, &mut out, &["file", "versatiles", "pmtiles", "tar", "mbtiles", "dir", "pmtiles-leaves", "pmtiles-indep2", "pmtiles-indep3", "versatiles-blocks", "versatiles-damaged"]);
+	let env = stress_env(args, &mut out, &["file", "versatiles", "pmtiles", "tar", "mbtiles", "dir", "pmtiles-leaves", "pmtiles-indep2", "pmtiles-indep3", "versatiles-blocks", "versatiles-damaged", "first-versatiles", "first-versatiles-blob", "first-pmtiles", "first-pmtiles-blob", "first-tar", "first-mbtiles", "first-dir"]);
 	phases.push(("setup".into(), t0.elapsed().as_secs_f64()));
 	let file_calls = args.n(300_000, 6_000_000); // per configuration, split over the threads
 	for (exec, threads) in [("threads", 2usize), ("threads", 4), ("threads", 8), ("threads", 16), ("tokio", 16), ("tokio", 64)] {
@@ -1514,6 +1614,14 @@ pub fn run(args: &Args) {
 		}
 	}
 	phases.push(("rounds".into(), t0.elapsed().as_secs_f64()));
+	// the callers' FIRST operations on a freshly opened reader, released together (lazy initialisation races)
+	for target in ["first-versatiles", "first-versatiles-blob", "first-pmtiles", "first-pmtiles-blob", "first-tar", "first-mbtiles", "first-dir"] {
+		for (exec, threads) in [("threads", 2usize), ("threads", 4), ("threads", 16), ("threads", 64), ("tokio", 4), ("tokio", 16), ("tokio", 64)] {
+			let cfg = StressCfg { target: target.into(), exec: exec.into(), threads, calls: args.n(if threads >= 64 { 15 } else { 40 }, 300), mode: "first".into(), seed: rng.next() % 1_000_000 };
+			run_stress(&mut out, &env, &cfg);
+		}
+	}
+	phases.push(("first-ops".into(), t0.elapsed().as_secs_f64()));
 	out.extra.insert("phase_seconds_cumulative".into(), json!(phases));
 	out.notes.push("checklist: (1) thresholds – ranges of 0 bytes, at / across the end of the file, reads of 1 MiB−1 / 1 MiB / 1 MiB+1 / up to 3 MiB, 16384-entry PMTiles files (leaf directories), 256-block borders in the multi-block versatiles file; (2) faults after open – containers with a damaged tile index (every verdict = a fresh reader's), ranges behind the end of the file in the strace tie; files replaced while open are outside the statement (the file is assumed unchanged); (3) payloads are opaque to the readers' concurrency behaviour: tiny (14 B) to 200 KB ranges and ≥ 1 MiB reads; (4) no options; (5) warm caches (long-lived shared readers) and cold caches (fresh reader per round), the same reader object reused across all phases; (6) 2–64 OS threads (≫ cores), 16–64 tasks on a 16-worker runtime, lookups and several multi-block streams on one reader at once, RLIMIT_NOFILE lowered to the descriptors in use + 8; (7) n.a.; (8) zoom 0–12, absent coordinates; (9) PMTiles files from the independent encoder with 2 and 3 directory levels; (10) concurrent result = sequential / fresh-reader result, byte for byte, for read_range, get_tile_data (incl. None / Err) and bbox streams; readers on real files on disk for versatiles, pmtiles, tar, mbtiles and directory".into());
 	out.notes.push("level: proof about the model (every interleaving of syscall programs); the Linux kernel, libc, the OS scheduler and tokio are assumptions – a theorem cannot exhibit a race in the real OS, the stress runs only sample real schedules".into());
